@@ -59,6 +59,15 @@ CLAIMED = {
         technique="Lean 4 proof (inductive invariant over event lists, per-branch specifications) + exhaustive/random differential vs real send_data on a virtual-time loop",
         note="Granularity is settled loop states plus two batched cases (ACK-vs-timeout race, two frames in one read); wall-clock drift is not modelled. ",
     ),
+    "C07": dict(
+        text="Generic codec over the generated type descriptors (uint/sint/LVBytes/FixedList/LVList/greedy List/raw Bytes/Struct/optional tail) with mutual ser/de: round trip de(ser v ++ rest) = (v, rest) for every prefix-free descriptor and every value (mutual induction); "
+        "schema round trip with no bytes left for prefix-free fields followed by at most one raw/optional tail; header round trip for the three layouts and their literal bytes; decide +kernel over all 11 generated tables: frame IDs unique, names unique, IDs fit the header, schemas valid, greedy/optional last, argument names unique; "
+        "corollary for every version, every command with a covered rx schema and every value tuple: the receive path (header parse → table lookup → decode) returns that command with exactly those values and nothing left; serialize_dict argument resolution: positional ≡ keyword. "
+        "Tie: tables regenerated from the imported command modules every run + differential for every (version, command) pair (2 751): payloads from an independent descriptor-driven encoder through the real handler __call__ and _ezsp_frame (positional / keyword / reversed-keyword / mixed), compared with model and specification layout.",
+        ref="6 C07",
+        technique="Lean 4 proof (mutual structural induction for the codec, decide +kernel over generated command tables) + exhaustive-over-commands differential vs real _ezsp_frame / __call__",
+        note="Rows whose rx schema ends in a greedy list, nests an optional field in a trailing struct, or has the requires-conditioned field (4 commands) are outside the round-trip theorem (counted by c07_rx_coverage) and covered by the differential only. zigpy's type classes are modelled via the descriptor lowering. ",
+    ),
     "C15": dict(
         text="Inductive invariant (groups distinct; every host entry programmed non-zero at its index; every free index cleared; free ∪ used covers the table) proved for every "
         "operation sequence over {start-up, subscribe, unsubscribe}, every table size, every initial table with each group at most once, every answer {OK, rejection, timeout} and every "
